@@ -512,9 +512,3 @@ func oddSchnorr(d *big.Int, msg []byte, r *core.Rand, oddR bool) []byte {
 	}
 }
 
-func genMore(g *core.Gen) {
-	genPub(g)
-	genSchnorrSigParse(g)
-	genSignVerify(g)
-	genMusig(g)
-}
